@@ -37,6 +37,14 @@ def payload(k, c):
     return PAY[k % len(PAY)]
 
 
+# text that carries control sequences other than colours (a diff of a terminal typescript): DEC private modes, sequences
+# with an intermediate byte; none of them changes the rendition, all are complete
+PAY_CTRL = ["typescript \x1b[?25lhidden cursor\x1b[?25h and \x1b[?2004hbracketed paste " + "targets " * 6,
+            "\x1b[>4;2mmodify other keys\x1b[0 q cursor shape " + "word " * 12, "plain line between", "\x1b[?1049h" + "alt screen " * 8 + "\x1b[?1049l"]
+# file names with a component that looks like an abbreviated commit hash
+HEX_NAMES = {1: "3f2a9bc1.json", 2: "deadbeef12.rs", 3: "0a1b2c3d4e5f.txt"}
+
+
 def run(tier):
     t0 = time.time()
     V = core.Verdict(PID)
@@ -50,6 +58,12 @@ def run(tier):
         ms = list(MODES) if tier == "thorough" else rnd.sample(list(MODES), 4)
         for m in ms:
             jobs.append(("hist", h, m, i % 3, BASE + MODES[m]))
+    for i, h in enumerate(hists[:60 if tier == "quick" else 600]):
+        for m in ("side-by-side-60", "side-by-side-41-wrap1", "side-by-side-30-nowrap", "maxlen-20", "unified"):
+            jobs.append(("ctrl", h, m, 0, BASE + MODES[m]))
+        jobs.append(("hexnames", h, "hyperlinks+commit-format", i % 3,
+                     BASE + ["--hyperlinks", "--hyperlinks-commit-link-format", "https://example.com/commit/{commit}", "--width", "90"]
+                     + (["--side-by-side"] if i % 2 else [])))
     # truncation / wrapping sweep on one styled, hyperlinked line: every width and max-line-length
     L = lambda c, f=0, g=0, kd="": {"c": c, "f": f, "g": g, "kd": kd}
     one_line = [L("diff", 1, 1, "mod"), L("index"), L("mmm", 1), L("ppp", 1), L("hh"), L("zero"), L("minus"), L("plus"), L("zero")]
@@ -68,7 +82,8 @@ def run(tier):
 
     def one(job):
         kind, h, m, variant, args = job
-        data, texts = gitskin.concretise(h, payload=payload)
+        data, texts = gitskin.concretise(h, payload=(lambda k, c: PAY_CTRL[k % len(PAY_CTRL)]) if kind == "ctrl" else payload,
+                                         skin={"names": HEX_NAMES, "dir": "tests/fixtures"} if kind == "hexnames" else None)
         if variant:
             texts = gitskin.colourise(h, texts, variant)
             data = "".join(t + "\n" for t in texts).encode()
